@@ -39,10 +39,12 @@ impl EventGen for ReuseElement {
             .inspect_err(|_| {
                 context.pop_element();
             })?;
-        instance_element.expand_compound_size();
+        // evaluate before splitting compound attributes, as for any other element:
+        // an expression such as wh="$s {{$s * 2}}" contains spaces.
         instance_element.eval_attributes(context).inspect_err(|_| {
             context.pop_element();
         })?;
+        instance_element.expand_compound_size();
         let instance_size = instance_element.size(context)?;
 
         // Override 'default' attr values in the target
